@@ -228,6 +228,51 @@ def _entry_iteration(fl: Flow, target, it, is_h):
     return None
 
 
+def _as_expression(fdef):
+    """the single (conditional) expression a small function returns, else None: `return e`; `if t: return a` + `return b` (or else:)"""
+    body = [b for b in fdef.body if not (isinstance(b, ast.Expr) and isinstance(b.value, ast.Constant))]
+    if len(body) == 1 and isinstance(body[0], ast.Return) and body[0].value is not None:
+        return body[0].value
+    if body and isinstance(body[0], ast.If) and len(body[0].body) == 1 and isinstance(body[0].body[0], ast.Return) and body[0].body[0].value is not None:
+        rest = body[0].orelse if body[0].orelse and len(body) == 1 else body[1:] if not body[0].orelse else None
+        if rest and len(rest) == 1 and isinstance(rest[0], ast.Return) and rest[0].value is not None:
+            return ast.IfExp(test=body[0].test, body=body[0].body[0].value, orelse=rest[0].value)
+    return None
+
+
+def _applied_expression(ctx, fn, call):
+    """`f(a, b)` rewritten as the expression f returns with the arguments put in, for a module-level function / a method of the
+    class reached through self / cls / the class name that consists of one (conditional) expression; else None"""
+    import copy
+
+    target = None
+    if isinstance(call.func, ast.Name):
+        r = ctx.p.resolve_name(fn.module, call.func.id)
+        target = r[1] if r and r[0] == "func" else None
+        skip = 0
+    elif isinstance(call.func, ast.Attribute) and isinstance(call.func.value, ast.Name) and fn.cls is not None \
+            and call.func.value.id in (fn.self_name, "cls", fn.cls.name):
+        m = fn.cls.lookup(call.func.attr)
+        target = m[2] if m and m[1] == "method" else None
+        skip = 0 if target is not None and target.kind == "staticmethod" else 1
+    if target is None or call.keywords or any(isinstance(a, ast.Starred) for a in call.args):
+        return None
+    a = target.node.args
+    if a.vararg or a.kwarg or a.kwonlyargs or target.node.decorator_list and not all(unparse(d) in ("staticmethod", "classmethod") for d in target.node.decorator_list):
+        return None
+    params = [x.arg for x in a.posonlyargs + a.args][skip:]
+    expr = _as_expression(target.node)
+    if expr is None or len(params) != len(call.args):
+        return None
+    bound = dict(zip(params, call.args))
+
+    class Sub(ast.NodeTransformer):
+        def visit_Name(self, n):
+            return copy.deepcopy(bound[n.id]) if n.id in bound and isinstance(n.ctx, ast.Load) else n
+
+    return ast.fix_missing_locations(ast.copy_location(Sub().visit(copy.deepcopy(expr)), call))
+
+
 def _generic_harvest_copies(ctx):
     """(keys, types): copy_to_parent re-binds the harvested entries of those keys / EVERY harvested entry that is an instance of one
     of those types ("*": whatever its type) to a copy of itself before constructing the new entity.  Recognised: a loop over the
@@ -257,8 +302,14 @@ def _generic_harvest_copies(ctx):
 
         return is_entry
 
-    def copies_entry(e, is_entry, through_ifexp=True):
+    def copies_entry(e, is_entry, through_ifexp=True, _depth=0):
         """None: not a copy of the entry; else the set of types for which the entry is copied ('*': always)"""
+        # f(entry) with f a small function of the package that is one (conditional) expression of its argument: seen as that
+        # expression (the normaliser does not expand calls made inside a comprehension)
+        if isinstance(e, ast.Call) and not _is_copy_call(e) and _depth < 3:
+            applied = _applied_expression(ctx, _fn, e)
+            if applied is not None:
+                return copies_entry(applied, is_entry, True, _depth + 1)
         if isinstance(e, ast.IfExp) and through_ifexp:
             t = isinstance_of(e.test, is_entry)
             if t is None:
